@@ -488,12 +488,18 @@ def run(ctx):
     # list options (-A, -X, -I, --hostnames, --domains ...) reach their filters as typed: the converter splits at commas and strips
     # blanks, nothing else (directory and suffix lists are case-sensitive)
     cl = repo.func('wpull.application.options:AppArgumentParser.comma_list')
-    allowed = {'split', 'strip', 'list', 'tuple'}
+    allowed = {'split', 'strip', 'list', 'tuple', 'filter'}
     extra = sorted({(U.attr_name(c) or (c.func.id if isinstance(c.func, ast.Name) else '?')) for c in U.calls(cl.node)
                     if not (dotted(c.func) or '').startswith(('_logger.', 'logger.', 'logging.'))} - allowed)
     ck.expect(not extra, 'C02-D5', cl.qual, 'comma_list: split(",") and strip() only',
               'the list converter also applies %s to every item: a directory, suffix or host given with other spelling no longer matches the '
               'URLs it was meant for (-X /Private becomes /private and /Private/... is crawled)' % extra, cl.loc())
+    # an empty item (`-D example.com,`) would match every host / directory / suffix: the converter drops it
+    drops = any(isinstance(x, (ast.ListComp, ast.GeneratorExp)) and any(g.ifs for g in x.generators) for x in ast.walk(cl.node)) \
+        or any(isinstance(c, ast.Call) and isinstance(c.func, ast.Name) and c.func.id == 'filter' for c in ast.walk(cl.node))
+    ck.expect(drops, 'C02-D5', cl.qual, 'comma_list drops empty items',
+              'an empty item survives (`-D example.com,` gives [\'example.com\', \'\']): every host ends with \'\' and every path lies below \'\', so the '
+              'domain / directory / suffix filter accepts everything it was meant to keep out', cl.loc())
     from .common import hostnames_agreement_rule
     hostnames_agreement_rule(ctx, 'C02-D5')
     from .common import prefilter_judges_child_rule
